@@ -1307,7 +1307,10 @@ func main() {
 	rng := vh.NewRng(a.Seed)
 	rep := vh.NewReport(a, "sessions = fresh interpreter + the whole generic catalogue (17 generic types incl. recursive, mutually recursive, alias, constant-parameter and nested ones; 41 generic functions over slices/maps/closures/channels/lists/trees) declared in random order with random parameter names, "+
 		"then a random history of operations: generic x random arguments per parameter class (ints of all widths, floats, string, complex, named types, aliases byte/rune/AliasInt as alternative spellings, slices, maps, arrays, pointers, funcs, chans, struct literals, other instances to depth 2, integer constants spelled as literal/expression/named constant) x scope "+
-		"(top, func, closure1..3, block, goroutine, method, localtype, infer) x random input values; 30% of the operations repeat or permute an earlier (generic, arguments); each operation is evaluated as generic instance, as L1 textual specialisation (same interpreter), as L2 plain Go copy (gomacro and compiled Go); type instances get identity probes; "+
+		"(top, func, closure1..3, block, goroutine, method, localtype, infer, nest = a function body (with or without parameters) and 0..5 nested constructs drawn from {block, block with local, for, for with body local, range, if with init, switch with init, closure, closure with local, closure with parameter}) x random input values; 30% of the operations repeat or permute an earlier (generic, arguments); "+
+		"5 generic functions have bodies that read/write package-level variables and call package-level functions; every session names one of them at top level and below 0..5 nest layers (depth sweep; the measured number of run-time environments between the naming site and the declaration is in distribution env-depth-below-declaration(upn):N, printed by OptDebugGenerics); "+
+		"every second session is LATE: the late units (plain func/type/var lateShow, LateRec, lateVar and the generics LateBox, LateLen) are not declared at the start; the first operation on a consumer (7 generics whose body names a unit, one of them through a nested instance, one after a completed nested instance) first attempts the instantiation (in the scope of the operation): it must fail to compile like its textual specialisation and leave the instance caches of every generic still waiting for a unit unchanged; then the unit is declared and the operation proceeds as usual (must compile and agree with L1/L2/compiled Go; memoisation as usual); late sessions are evaluated by C35.FailModel (cases_fail_*.v), the others by C35.Model; "+
+		"each operation is evaluated as generic instance, as L1 textual specialisation (same interpreter), as L2 plain Go copy (gomacro and compiled Go); type instances get identity probes; "+
 		"corpus/C35 (exact inputs of findings) first; an evaluation is non-trivial when the instance compiled and its driver returned a non-empty string; distinct by (canonical instance, scope, value seed)")
 	h := &harness{a: a, rep: rep, cat: catalogue()}
 	h.wd = vh.NewWatchdog(rep, 120*time.Second)
